@@ -263,6 +263,31 @@ func rulesC07(c *Ctx) {
 			}
 		})
 		c.Check(okD, "discover:advertises-filtered-versions", disc, nil, "DiscoverResult.SupportedVersions is the session's transport-filtered list")
+		// the Stateless flag that admits 2026-07-28 is a constant of the code path that builds the transport: true in the
+		// stateless handler, false in the stateful one — never derived from request data such as the session id
+		statelessF := c.Field(pM, "StreamableServerTransport", "Stateless")
+		nLit := 0
+		for _, f := range c.funcsWithLits(pM) {
+			inspectNoLit(f.Body, func(n ast.Node) {
+				kv, ok := n.(*ast.KeyValueExpr)
+				if !ok || f.ObjOf(kv.Key) != types.Object(statelessF) {
+					return
+				}
+				nLit++
+				want := ""
+				switch f.Root().Name() {
+				case "(*StreamableHTTPHandler).serveStateless":
+					want = "true"
+				case "(*StreamableHTTPHandler).serveStatefulPOST":
+					want = "false"
+				}
+				c.Check(want != "" && exprStr(kv.Value) == want, "Stateless-literal:"+f.Root().Name(), f, kv, "the transport built here has Stateless: %s as a constant (found %s)", want, exprStr(kv.Value))
+			})
+			for _, w := range f.FieldWrites(f.Body, statelessF, false) {
+				c.Fail("Stateless-assigned:"+f.Name(), f, w, "the Stateless flag of a transport is assigned after construction")
+			}
+		}
+		c.Pin("StreamableServerTransport literals with a Stateless key", nLit, 2)
 	})
 
 	c.Rule("R-C07-3", "the client accepts a session only after verifying the negotiated version, closes the session on every failed handshake step, and falls back to a legacy table entry", func() {
